@@ -527,3 +527,87 @@ func TestC13NilValues(t *testing.T) {
 		ev.Case(nils > 0, evid.Hash("nilvalues", fmt.Sprint(model), n, nils), "nil-map-values")
 	})
 }
+
+// TestC13BinaryKeys: index keys as binary data produces them. (1) Keys and prefixes ending in
+// 0xff with several entries just above the prefix's range (a reverse query starts from the
+// successor of the prefix). (2) Keys that contain the byte 0x00, which also separates key and
+// id in an index entry: the ids a query returns are compared as a set there, since that byte
+// inside keys leaves the relative order of some entries open.
+func TestC13BinaryKeys(t *testing.T) {
+	ev := evid.For("C13")
+	rapid.Check(t, func(rt *rapid.T) {
+		zero := rapid.Bool().Draw(rt, "zeroBytes")
+		pool := []string{"a~", "a~b", "a~~", "b", "ba", "b:a", "b~", "a", "~", "~~"}
+		prefixes := []string{"a~", "~", "a~~", "a", "b", ""}
+		if zero {
+			pool = []string{"a^b", "a^", "^", "a", "ab", "a^^b", "b^a", "^a"}
+			prefixes = []string{"", "a", "a^", "^", "b", "a^^"}
+		}
+		cfg := Cfg{Prefix: rapid.SampledFrom([]string{"", "pfx"}).Draw(rt, "prefix"), Indexes: []string{"ia"}}
+		m, err := newMachine(cfg)
+		if err != nil {
+			rt.Fatalf("VERIF-INCONCLUSIVE: %v", err)
+		}
+		defer m.cleanup()
+		model := map[string]Rec{}
+		n := rapid.IntRange(2, 9).Draw(rt, "values")
+		for i := 0; i < n; i++ {
+			id := fmt.Sprintf("v%d", i)
+			r := Rec{A: rapid.SampledFrom(pool).Draw(rt, "key")}
+			if err := m.mutate(Op{K: "create", ID: id, A: r.A}); err != nil {
+				rt.Fatalf("create %s: %v", id, err)
+			}
+			model[id] = r
+		}
+		m.qs.Flush()
+		for _, p := range prefixes {
+			for _, rev := range []bool{false, true} {
+				for _, filter := range []string{"", "evenlen"} {
+					q := Query{Index: "ia", Prefix: p, Filter: filter, Limit: -1, Reverse: rev}
+					got, err := m.query(q)
+					want := refQuery(model, q)
+					if zero {
+						got, want = append([]string(nil), got...), append([]string(nil), want...)
+						sort.Strings(got)
+						sort.Strings(want)
+					}
+					if err != nil || !sameIDs(got, want) {
+						rt.Fatalf("query %+v returned %q (%v), the scan of the store gives %q (store: %s)", q, got, err, want, describeModel(model))
+					}
+				}
+			}
+		}
+		ev.Case(true, evid.Hash("binarykeys", zero, cfg.Prefix, describeModel(model)), "binary-keys")
+	})
+}
+
+// TestC14BinaryKeys: the sequential machine (standing queries, query-change callbacks) on
+// keys and prefixes that end in 0xff, with reverse standing queries: what a query issued
+// inside the callback returns, and whether the change counts as affecting the query, must
+// follow the reference.
+func TestC14BinaryKeys(t *testing.T) {
+	ev := evid.For("C14")
+	rapid.Check(t, func(rt *rapid.T) {
+		pool := []string{"a~", "a~b", "a~~", "b", "ba", "b:a", "b~", "a", "~", "~~"}
+		c := Case{Cfg: Cfg{Prefix: rapid.SampledFrom([]string{"", "pfx"}).Draw(rt, "prefix"), Indexes: []string{"ia"}}}
+		ns := rapid.IntRange(1, 3).Draw(rt, "nstanding")
+		for i := 0; i < ns; i++ {
+			c.Cfg.Standing = append(c.Cfg.Standing, Query{Index: "ia", Prefix: rapid.SampledFrom([]string{"a~", "~", "a~~", "a", ""}).Draw(rt, "sprefix"), Limit: rapid.SampledFrom([]int{-1, -1, 2}).Draw(rt, "slimit"), Reverse: rapid.IntRange(0, 3).Draw(rt, "srev") > 0})
+		}
+		n := rapid.IntRange(3, 20).Draw(rt, "nops")
+		for i := 0; i < n; i++ {
+			k := rapid.SampledFrom([]string{"create", "create", "update", "update", "delete", "query"}).Draw(rt, "k")
+			op := Op{K: k, ID: rapid.SampledFrom([]string{"1", "2", "3", "4", "5"}).Draw(rt, "id"), A: rapid.SampledFrom(pool).Draw(rt, "a")}
+			if k == "query" {
+				q := c.Cfg.Standing[rapid.IntRange(0, ns-1).Draw(rt, "which")]
+				op = Op{K: "query", Q: &q}
+			}
+			c.Ops = append(c.Ops, op)
+		}
+		r := runSequential(c)
+		ev.Case(true, evid.Hash("binarykeys14", c.String()), "binary-keys")
+		if r.c14 != "" {
+			rt.Fatalf("%s\ncase: %s", r.c14, c)
+		}
+	})
+}
